@@ -87,6 +87,10 @@ var debugNodeLogs func(string)
 type logCore struct {
 	mu     sync.Mutex
 	counts map[string]int
+	// skipNC: the number of committed validators dBFT last reported when it refused to ask for a view change
+	// ("skip change view", nc), -1 before the first such entry
+	skipNC int64
+	skipN  int
 }
 
 func (c *logCore) Enabled(l zapcore.Level) bool {
@@ -115,6 +119,14 @@ func (c *logCore) Write(e zapcore.Entry, fs []zapcore.Field) error {
 	}
 	c.mu.Lock()
 	c.counts[e.Level.String()+": "+e.Message]++
+	if e.Message == "skip change view" {
+		for _, f := range fs {
+			if f.Key == "nc" {
+				c.skipNC = f.Integer
+				c.skipN++
+			}
+		}
+	}
 	c.mu.Unlock()
 	return nil
 }
